@@ -175,8 +175,19 @@ def run_unit(ctx, unit):
         files = [("in%d.json" % (len(b) - i), b"\n".join(texts[b[i]:b[i + 1]])) for i in range(len(b) - 1)]
         cases[1] = core.Case(["@D@/" + nme for nme, _ in files] + a2, b"", files=files)
         st.count("second_run_from_files")
+    csv_at = None
     if unit["selects"] and unit["group"] is None and not unit["merge"]:
+        csv_at = len(cases)
         cases.append(core.Case(a1 + ["-o", "csv"], data))
+    oa_pair = None
+    if unit["only_oa"]:
+        # --only-objects-and-arrays is "the same run on the input without its top-level scalars", also for what the stages can
+        # see of a value's place in the input (&index, &index-in-file)
+        ctxsel = ["--select=&index=ix", "--select=(| . &index-in-file)=ixf"]
+        kept = "\n".join(jm.dumps(v) for v in unit["inputs"] if isinstance(v, (dict, list))).encode("utf-8")
+        oa_pair = (len(cases), len(cases) + 1)
+        cases.append(core.Case(a1 + ctxsel, data))
+        cases.append(core.Case([a for a in a1 if a != "--only-objects-and-arrays"] + ctxsel, kept))
     obs = ctx.drv.run_many(cases)
     o1, o2 = obs[0], obs[1]
     if o1.result != "ok":
@@ -193,6 +204,17 @@ def run_unit(ctx, unit):
                      {"args_1": a1, "args_2": a2, "stdout_1": o1.stdout[:800], "stdout_2": o2.stdout[:800], "result_2": o2.result + " " + o2.errtext[:200]})
         return
     st.count("argv_permutations_compared")
+    if oa_pair:
+        oa, ob = obs[oa_pair[0]], obs[oa_pair[1]]
+        if oa.result == "ok" and ob.result == "ok":
+            st.count("only_oa_vs_scalar_free_input")
+            if oa.stdout != ob.stdout:
+                st.violation("only-oa-vs-scalar-free-input", "--only-objects-and-arrays differs from the same run on the input without its top-level scalars (input context selected)",
+                             unit_json(unit), {"args": cases[oa_pair[0]].args, "stdout_flag": oa.stdout[:800], "stdout_scalar_free": ob.stdout[:800]})
+                return
+        elif (oa.result == "ok") != (ob.result == "ok") and "panic" not in (oa.result, ob.result) and not {"timeout", "abort"} & {oa.result, ob.result}:
+            st.violation("only-oa-vs-scalar-free-input:result", "--only-objects-and-arrays: %s, scalar-free input: %s" % (oa.result, ob.result), unit_json(unit), {"args": cases[oa_pair[0]].args})
+            return
     try:
         want = pipemodel.run(to_cfg(unit), unit["inputs"], core.FIXED_ENV)
         for w in want:
@@ -230,8 +252,8 @@ def run_unit(ctx, unit):
     st.count("specified_cases")
     st.see("nontrivial", pattern(unit) + (len(want) > 0, len(want) != len(unit["inputs"])))
     st.see("option_patterns", pattern(unit))
-    if len(obs) > 2 and obs[2].result == "ok":
-        lines = obs[2].stdout.count(b"\n")
+    if csv_at is not None and obs[csv_at].result == "ok":
+        lines = obs[csv_at].stdout.count(b"\n")
         st.count("csv_slices")
         if not any(isinstance(v, str) and ("\n" in v) for row in want if isinstance(row, dict) for v in row.values()) and lines != len(want) + 1:
             st.violation("csv-row-count", "csv output has %d lines for %d rows" % (lines, len(want)), unit_json(unit), None)
